@@ -16,7 +16,7 @@ RULE = ('each case = a valid prefix reaching varied stream states (open / half-c
         'received DATA above half the window, settings pending, undrained output), closure by one of three routes, then '
         '5-40 random public calls and received frames; non-trivial = closure reached and at least 3 post-closure actions '
         'judged; distinct = hash of (route, role, post-closure action sequence)')
-MINIMA = {'goaway_sharing_its_chunk_with_answered_frames': 300, 'post_calls_judged': 3000, 'post_recv_judged': 1000, 'route_close_connection': 100, 'route_recv_goaway': 100,
+MINIMA = {'closed_by_a_frame_the_idle_connection_refuses': 300, 'goaway_sharing_its_chunk_with_answered_frames': 300, 'post_calls_judged': 3000, 'post_recv_judged': 1000, 'route_close_connection': 100, 'route_recv_goaway': 100,
           'route_conn_error': 100, 'ack_after_close_judged': 200, 'pending_discard_judged': 100,
           'goaway_on_closed_connection_with_pending_output': 300}
 
@@ -119,6 +119,11 @@ def run_case(idx, rng, tier, rep):
     else:
         bad_frame = rng.choice([wire.build_data(0, b'x'), wire.build_window_update(0, 0), wire.raw_frame(wire.PING, 0, 0, b'123'),
                                 wire.build_settings([(2, 5)]), wire.build_headers(0, hb(REQ))])
+        if not live and rng.random() < 0.7:
+            # no stream yet: frames the connection itself (still idle) has no use for
+            bad_frame = rng.choice([wire.build_data(1, b'x'), wire.build_rst(1, 0), wire.build_rst(2, 8), wire.build_data(3, b'', end_stream=True),
+                                    wire.build_push_promise(1, 2, hb(REQ)), wire.build_window_update(1, 0)])
+            rep.count('closed_by_a_frame_the_idle_connection_refuses')
         r = t.call('receive_data', bad_frame, _drain=not late_goaway)
         if r.ok or not isinstance(r.exc, h2.exceptions.ProtocolError):
             rep.count('closure_failed')
